@@ -796,3 +796,19 @@ Proof.
     + apply (slim_index_k_is_kth_unmasked m H W Hm).
     + rewrite <- (native_for_slim_is_spec m H W Hm HH). apply (slim_is_rowmajor_gather 0%Z m n H W Hm Hn).
 Qed.
+
+(* ---- session 4: the number of slim entries is the number of False entries of the mask (any mask, ragged or not) *)
+Lemma row_coords_length y r : forall x, length (row_coords y r x) = length (filter negb r).
+Proof. induction r as [|b t IH]; intro x; cbn [row_coords filter negb]; [reflexivity|]. destruct b; cbn [negb length]; rewrite IH; reflexivity. Qed.
+Lemma coords_from_length m : forall y, length (coords_from m y) = length (filter negb (concat m)).
+Proof.
+  induction m as [|r t IH]; intro y; cbn [coords_from concat]; [reflexivity|].
+  rewrite app_length, filter_app, app_length, row_coords_length, IH. reflexivity.
+Qed.
+Theorem count_is_number_of_unmasked (m : mask) : count m = length (filter negb (concat m)).
+Proof. unfold count, native_for_slim. apply coords_from_length. Qed.
+Theorem slim_length_is_number_of_unmasked {A : Type} (zero : A) (m : mask) (n : list (list A)) H W :
+  rectb H W m = true -> rectb H W n = true -> length (slim_from m n) = length (filter negb (concat m)).
+Proof. intros Hm Hn. rewrite (slim_from_length zero m n H W Hm Hn). apply count_is_number_of_unmasked. Qed.
+Theorem index_list_false_length (m : mask) H W : rectb H W m = true -> length (mask_slim_indexes m false) = count m.
+Proof. intro Hm. rewrite <- (slim_index_k_is_kth_unmasked m H W Hm), map_length. reflexivity. Qed.
